@@ -206,13 +206,13 @@ func (t *dnsCacheTrack) scan() {
 		w.onEntriesRemoved(goneObs, before)
 	}
 	for _, e := range news {
-		if old := t.cur[e.raw]; old != nil && t.restoring {
-			e.restored, e.origin = true, old
-		} else if t.restoring {
-			// restored into a fresh store: the origin is the latest observation of that key
+		if t.restoring {
+			// a restored entry continues the life of the latest observation of the same key
+			// that holds the same answer (a clone taken before a concurrent refresh restores
+			// the older answer)
 			for i := len(t.hist) - 1; i >= 0; i-- {
-				if t.hist[i].raw == e.raw {
-					e.restored, e.origin = true, t.hist[i]
+				if o := t.hist[i]; o.raw == e.raw && fmt.Sprint(o.ids) == fmt.Sprint(e.ids) {
+					e.restored, e.origin = true, o
 					break
 				}
 			}
